@@ -90,7 +90,14 @@ class FieldBase(metaclass=ABCMeta):
     def __getstate__(self) -> dict[str, Any]:
         state = self.__dict__.copy()
         state.pop("_cache_methods", None)  # delete method cache if present
+        state.pop("_data_valid", None)  # view into full data is restored on loading
         return state
+
+    def __setstate__(self, state: dict[str, Any]) -> None:
+        self.__dict__.update(state)
+        # restore the view of the valid data, since serialization does not preserve
+        # that `_data_valid` shares its memory with the full data array
+        self._data_valid = self.__data_full[self._idx_valid]
 
     @property
     def data(self) -> NumericArray:
